@@ -776,12 +776,21 @@ func c43WireLane(c *kit.Ctx, ra *ruleAcc) {
 	case <-time.After(c43Watchdog):
 		c.Harness("collector did not stop")
 	}
-	c.Require("connections", 40)
-	c.Require("delivered", 80)
-	c.Require("delivered_exactly_at_limit", 5)
-	c.Require("trailers_delivered", 15)
-	c.Require("oversized_sent", 15)
-	c.Require("duplicates_sent", 4)
+	if race { // fewer probes (see above): the race lane is there for the detector, the plain lane for coverage
+		c.Require("connections", 25)
+		c.Require("delivered", 40)
+		c.Require("delivered_exactly_at_limit", 3)
+		c.Require("trailers_delivered", 10)
+		c.Require("oversized_sent", 10)
+		c.Require("duplicates_sent", 2)
+	} else {
+		c.Require("connections", 60)
+		c.Require("delivered", 100)
+		c.Require("delivered_exactly_at_limit", 6)
+		c.Require("trailers_delivered", 20)
+		c.Require("oversized_sent", 25)
+		c.Require("duplicates_sent", 8)
+	}
 	if !race {
 		c.Require("delivered_zstd_expanded", 1)
 		c.Require("zstd_bombs_sent", 2)
